@@ -2516,7 +2516,7 @@ class Interp:
                 v = kwargs.get(k, dflt)
                 return isinstance(v, Lin) and v.is_const() and v.const == 0 if not isinstance(v, (int, float)) else v == 0
             if not (_zero("rel_tol", 1) and _zero("abs_tol", 0)):
-                self.tolerance_calls = getattr(self, "tolerance_calls", 0) + 1
+                self.math_tolerance_calls = getattr(self, "math_tolerance_calls", 0) + 1  # kept apart from my_math.isclose (tables.default_overrides)
             return self.equal(args[0], args[1], node)
         if n == "copy.deepcopy":
             return self.deepcopy(args[0])
